@@ -8,7 +8,9 @@ use indexmap::IndexMap;
 use std::marker::PhantomData;
 
 /// namespace markers
+#[derive(Clone)]
 pub struct NA;
+#[derive(Clone)]
 pub struct NB;
 
 pub const ANON: u8 = 0;
@@ -80,5 +82,19 @@ pub fn line_of(n: &MNest, fmt: u8) -> S {
 	v.extend(&n.inner); v.push(9);
 	let acc = match fmt { 0 => format!("{}", n.access), 1 => format!("0x{:x}", n.access), 2 => format!("0x{:04X}", n.access), _ => format!("0b{:b}", n.access) };
 	v.extend(cps_str(&acc));
+	v
+}
+
+/// the kind the nests text format gives an inner name: ASCII digits only (what the jar nester's
+/// `parse::<i32>`, its digit-prefix stripping and NestTypeA::new understand) — written here without
+/// looking at the reader
+pub fn ascii_kind(inner: &[u32]) -> u8 {
+	let d = inner.iter().take_while(|&&c| (0x30..=0x39).contains(&c)).count();
+	if d == inner.len() { ANON } else if d > 0 { LOCAL } else { INNER }
+}
+/// the text form of a whole table (LF line ends; access flags in the four spellings by turns)
+pub fn text_of(t: &MTable) -> S {
+	let mut v = vec![];
+	for (i, n) in t.iter().enumerate() { v.extend(line_of(n, (i % 4) as u8)); v.push(10); }
 	v
 }
